@@ -55,6 +55,7 @@ var memoPrelude = []string{
 	// other ways of performing the same redefinitions / mutations (chosen by the instantiation variant)
 	"hset2 = func(k) {old = h; h = func(x) {x + k}; old(0)}", "hset3 = func(k) {h(0); t = func() {h = func(x) {x + k}}; t()}",
 	"gflip = func() {g = 1 - g}", "gflip2 = func() {t = g; g = 1 - t; t}", "cset = func(v) {del(G); G = v}",
+	"fcatchgate = func(x) {r = catch(vgate()); if r.err {-1} else {r.value}}", "box = func(q) {[q]}",
 }
 
 // instantiateMemo turns a model history into REPL inputs. variant selects, per operation, one of the equivalent
@@ -83,6 +84,8 @@ func instantiateMemo(ops []memoOp, variant int) []string {
 			default:
 				in = append(in, fmt.Sprintf("println(mk%s(%d)(%d))", op.Cap, op.V, op.A))
 			}
+		case "box":
+			in = append(in, fmt.Sprintf("println(box(mklower(%d))[0](0))", op.V))
 		case "mutate":
 			in = append(in, pickv("g = 1 - g", "gflip()", "g := 1 - g", "gflip2()", "g++; g = g % 2"))
 		case "redefh":
@@ -131,14 +134,15 @@ func memoSignature(inputs []string) string {
 
 func checkC04(c *Ctx) {
 	// 1. design level: each exemption of the pinned tree, without its guard, serves a stale hit
-	for _, dev := range [][4]bool{{false, true, true, true}, {true, false, true, true}, {true, true, false, true}, {true, true, true, false}} {
+	for _, dev := range [][6]bool{{false, true, true, true, true, true}, {true, false, true, true, true, true}, {true, true, false, true, true, true}, {true, true, true, false, true, true},
+		{true, true, true, true, false, true}, {true, true, true, true, true, false}} {
 		b := func(x bool) string {
 			if x {
 				return "TRUE"
 			}
 			return "FALSE"
 		}
-		cfg := fmt.Sprintf("CONSTANTS\n MaxOps = 3\n ExemptOnlyTopLevel = %s\n ResetOnRedefinition = %s\n MissPropagates = %s\n ZeroSignDistinct = %s\n EmitOn = FALSE\nINIT Init\nNEXT Next\nVIEW view\nINVARIANTS ObsCorrect HitSound\n", b(dev[0]), b(dev[1]), b(dev[2]), b(dev[3]))
+		cfg := fmt.Sprintf("CONSTANTS\n MaxOps = 3\n ExemptOnlyTopLevel = %s\n ResetOnRedefinition = %s\n MissPropagates = %s\n ZeroSignDistinct = %s\n ImpureErrorIsMiss = %s\n FuncArgsUnhashable = %s\n EmitOn = FALSE\nINIT Init\nNEXT Next\nVIEW view\nINVARIANTS ObsCorrect HitSound\n", b(dev[0]), b(dev[1]), b(dev[2]), b(dev[3]), b(dev[4]), b(dev[5]))
 		r, err := c.TLC(TLCOpt{Spec: "Memo", Cfg: cfg, Workers: 4, AllowError: true})
 		if err != nil {
 			c.Infra(err)
@@ -149,11 +153,11 @@ func checkC04(c *Ctx) {
 			return
 		}
 	}
-	c.Cov("design_counterexamples", "ExemptOnlyTopLevel, ResetOnRedefinition, MissPropagates, ZeroSignDistinct = FALSE each violate ObsCorrect (stale hit)")
+	c.Cov("design_counterexamples", "ExemptOnlyTopLevel, ResetOnRedefinition, MissPropagates, ZeroSignDistinct, ImpureErrorIsMiss, FuncArgsUnhashable = FALSE each violate ObsCorrect (stale hit)")
 
 	// 2. MC + GEN
 	maxOps := c.Pick(4, 5)
-	cfg := fmt.Sprintf("CONSTANTS\n MaxOps = %d\n ExemptOnlyTopLevel = TRUE\n ResetOnRedefinition = TRUE\n MissPropagates = TRUE\n ZeroSignDistinct = TRUE\n EmitOn = TRUE\nINIT Init\nNEXT Next\nVIEW view\nINVARIANTS ObsCorrect HitSound\n", maxOps)
+	cfg := fmt.Sprintf("CONSTANTS\n MaxOps = %d\n ExemptOnlyTopLevel = TRUE\n ResetOnRedefinition = TRUE\n MissPropagates = TRUE\n ZeroSignDistinct = TRUE\n ImpureErrorIsMiss = TRUE\n FuncArgsUnhashable = TRUE\n EmitOn = TRUE\nINIT Init\nNEXT Next\nVIEW view\nINVARIANTS ObsCorrect HitSound\n", maxOps)
 	r, err := c.TLC(TLCOpt{Spec: "Memo", Cfg: cfg, Workers: 8})
 	if err != nil {
 		c.Infra(err)
